@@ -52,10 +52,22 @@ func genStream(rng *rand.Rand, tier string, emit func(string)) {
 		}
 		ng := 1 + rng.Intn(3)
 		gs := make([]*gstate, ng)
+		// replica ids are small per-partition counters: in half of the sessions all groups use the SAME replica ids
+		// (only the group id tells them apart), and the groups start at the same term and index, so that a message of
+		// one group can sit exactly where the previous message of another group ended
+		sameIDs := rng.Intn(2) == 0
+		t0, n0 := uint64(1+rng.Intn(3)), uint64(1+rng.Intn(5))
 		for i := range gs {
 			gid := uint64(10 + i)
-			gs[i] = &gstate{from: grp{remote, gid, gid*10 + remote, gid}, to: grp{local, gid, gid*10 + local, gid},
+			fr, tr := gid*10+remote, gid*10+local
+			if sameIDs {
+				fr, tr = remote, local
+			}
+			gs[i] = &gstate{from: grp{remote, gid, fr, gid}, to: grp{local, gid, tr, gid},
 				term: uint64(1 + rng.Intn(3)), next: uint64(1 + rng.Intn(5))}
+			if sameIDs {
+				gs[i].term, gs[i].next = t0, n0
+			}
 		}
 		nmsg := 5 + rng.Intn(40)
 		total := 0
@@ -72,6 +84,10 @@ func genStream(rng *rand.Rand, tier string, emit func(string)) {
 			g := gs[rng.Intn(ng)]
 			wf := 1
 			m := raftpb.Message{Type: raftpb.MsgApp, From: g.from.r, To: g.to.r, FromGroup: g.from.pb(), ToGroup: g.to.pb()}
+			if sameIDs && ng > 1 && rng.Intn(3) == 0 { // continue exactly where ANOTHER group's last message ended
+				o := gs[rng.Intn(ng)]
+				g.term, g.next = o.term, o.next
+			}
 			switch rng.Intn(10) {
 			case 0: // term change → full message
 				g.term += uint64(1 + rng.Intn(2))
@@ -129,7 +145,7 @@ func genStream(rng *rand.Rand, tier string, emit func(string)) {
 				Term: rng.Uint64() >> uint(rng.Intn(64)), LogTerm: uint64(rng.Intn(9)), Index: rng.Uint64() >> uint(rng.Intn(64)),
 				Commit: uint64(rng.Intn(99)), Reject: rng.Intn(2) == 0, RejectHint: uint64(rng.Intn(5))}
 			if rng.Intn(2) == 0 {
-				m.Context = []byte{1, 2, 3}
+				m.Context = []byte(fmt.Sprintf("ctx-%d-%d", s, i)) // distinct per message: a decoder that aliases its buffer shows
 			}
 			if rng.Intn(3) == 0 {
 				m.Entries = []raftpb.Entry{{Term: 3, Index: 9, Data: []byte("x")}}
@@ -140,6 +156,24 @@ func genStream(rng *rand.Rand, tier string, emit func(string)) {
 			m.FromGroup = grp{uint64(rng.Intn(5)), uint64(rng.Intn(5)), uint64(rng.Intn(5)), 1}.pb()
 			b, _ := m.Marshal()
 			emit("m " + hexs(b))
+		}
+		// a message above the 1 MiB internal buffer on the general stream (different code path), cut densely near its end
+		// and right behind its header: a cut that falls on a protobuf field boundary must still be an error
+		bigM := (tier != "thorough" && s == 1) || (tier == "thorough" && s%300 == 1) // costly on the Lean side (1 MiB byte lists): one per quick run
+		if bigM {
+			m := raftpb.Message{Type: raftpb.MsgApp, To: 2, From: 1, Term: 3, LogTerm: 3, Index: 10, Commit: 41,
+				FromGroup: grp{1, 7, 1, 7}.pb(), ToGroup: grp{2, 7, 2, 7}.pb()}
+			for e := 0; e < 4; e++ {
+				data := make([]byte, 263*1024+rng.Intn(100))
+				rng.Read(data)
+				m.Entries = append(m.Entries, raftpb.Entry{Term: 3, Index: uint64(11 + e), Data: data})
+			}
+			b, _ := m.Marshal()
+			emit("m " + hexs(b))
+			emit("mdec -1")
+			for back := 1; back <= 64; back++ {
+				emit(fmt.Sprintf("mdec -%d", back+1)) // -k-1 = cut k bytes before the end
+			}
 		}
 		emit("mdec -1")
 		for c := 0; c < 10; c++ {
@@ -244,6 +278,12 @@ func newStream(c *Ctx) func(string) string {
 			if isV2 {
 				all, sent = v2buf.Bytes(), sentV2
 			}
+			if k < -1 { // -k-1: cut that many bytes before the end
+				k = len(all) + k + 1
+				if k < 0 {
+					k = 0
+				}
+			}
 			if k < 0 || k > len(all) {
 				k = len(all)
 			}
@@ -255,6 +295,7 @@ func newStream(c *Ctx) func(string) string {
 				dec = rafthttp.VerifNewMessageDecoder(r)
 			}
 			var out []string
+			var held []raftpb.Message // what raft would still hold while later messages are decoded
 			n := 0
 			for {
 				m, err := dec()
@@ -266,6 +307,7 @@ func newStream(c *Ctx) func(string) string {
 					}
 					break
 				}
+				held = append(held, m)
 				if !isV2 || allWf {
 					if n >= len(sent) {
 						c.Violation("decoded-extra-message:"+f[0], canonMsg(&m))
@@ -284,6 +326,16 @@ func newStream(c *Ctx) func(string) string {
 					out = append(out, "p("+sum16(b)+")")
 				}
 				n++
+			}
+			// messages handed out earlier must still be what was sent after the whole stream was read (no aliasing of a
+			// reused decode buffer)
+			if !isV2 || allWf {
+				for i := range held {
+					if i < len(sent) && !reflect.DeepEqual(normalize(held[i]), normalize(sent[i])) {
+						c.Violation("decoded-message-changed-later:"+f[0], fmt.Sprintf("#%d now %s ctx=%q want ctx=%q", i, canonMsg(&held[i]), held[i].Context, sent[i].Context))
+						break
+					}
+				}
 			}
 			return strings.Join(out, " ")
 		case "v2corrupt":
